@@ -37,6 +37,8 @@ import (
 
 	"github.com/grafana/carbon-relay-ng/aggregator"
 	"github.com/grafana/carbon-relay-ng/matcher"
+	"github.com/grafana/carbon-relay-ng/rewriter"
+	"github.com/grafana/carbon-relay-ng/table"
 	"github.com/metrics20/go-metrics20/carbon20"
 
 	"verifharness/mon"
@@ -375,6 +377,12 @@ func main() {
 			}
 			r := mon.NewRng(mon.Seed(), 200+uint64(ci), uint64(b))
 			res.LogCase("levels %s batch %d (%d lines, stream %d)", cb, b, n, 200+ci)
+			if b > 0 && ci%3 != 2 {
+				// entries that match nothing are added to the running table and removed again: the configured
+				// validation levels (and everything else) are what they were
+				churn(t, fmt.Sprintf("c02churn%dx%d", ci, b), r)
+				nChurn++
+			}
 			aggBase := mon.Counter(aggKey)
 			touched := map[string]bool{}
 			validKeys := map[string]string{}
@@ -561,6 +569,7 @@ func main() {
 	res.Count("lines_valid", nValid)
 	res.Count("lines_rejected", nRejected)
 	res.Count("valid_lines_blacklisted", nBlacklisted)
+	res.Count("runtime_add_delete_rounds", nChurn)
 	res.Count("bad_report_names_checked", nBadChecked)
 	res.Count("doc_oracle_confident_verdicts", nDocSure)
 	res.Count("oracle_disagreements_informational", nDisagree)
@@ -582,6 +591,43 @@ func main() {
 	res.Floor("bad_report_names_checked", nBadChecked, wantLines/20)
 	res.Floor("doc_oracle_confident_verdicts", nDocSure, wantLines/4)
 	res.Write()
+}
+
+var nChurn int
+
+// churn adds a rewriter, a blacklist entry and a route that match none of the generated names, then deletes them.
+func churn(t *table.Table, key string, r *mon.Rng) {
+	none := "never-" + key
+	switch r.Intn(3) {
+	case 0:
+		rw, err := rewriter.New(none, "x", "", -1)
+		if err != nil {
+			panic(err)
+		}
+		t.AddRewriter(rw)
+		if err := t.DelRewriter(0); err != nil {
+			panic(err)
+		}
+	case 1:
+		m, err := matcher.New(none, "", "", "", "", "")
+		if err != nil {
+			panic(err)
+		}
+		t.AddBlacklist(&m)
+		idx := len(t.Snapshot().Blacklist) - 1
+		if err := t.DelBlacklist(idx); err != nil {
+			panic(err)
+		}
+	default:
+		m, err := matcher.New(none, "", "", "", "", "")
+		if err != nil {
+			panic(err)
+		}
+		t.AddRoute(mon.NewCaptureRoute(key, m, nil))
+		if err := t.DelRoute(key); err != nil {
+			panic(err)
+		}
+	}
 }
 
 func verdictWord(v bool) string {
